@@ -1,6 +1,6 @@
 SPECIFICATION TSpec
 CONSTANTS
-  Accts = {"eoa", "fwd", "dbl"}
+  Accts = {"eoa", "fwd", "dbl", "mix"}
   Start = 5
   Deposit = 1
 CHECK_DEADLOCK FALSE
